@@ -211,7 +211,8 @@ def build_source(r, tier):
             "nvar": 6 if tier == "quick" else 12}
 
 
-SOURCES = ["file", "stdin", "from", "gz_multi", "gz_multi_stdin", "gz_ext", "gz_flag", "z_ext", "z_flag", "bz2_ext", "bz2_flag", "gz_stdin", "prepipe", "prepipex", "file_twice_from"]
+SOURCES = ["file", "stdin", "from", "gz_multi", "gz_multi_stdin", "gz_ext", "gz_flag", "z_ext", "z_flag", "bz2_ext", "bz2_flag", "gz_stdin", "prepipe", "prepipex", "file_twice_from",
+           "files_list", "files_list_nonl", "mfrom"]
 
 
 def source_spec(case, src, rng):
@@ -260,6 +261,11 @@ def source_spec(case, src, rng):
         args, kw["files"] = ["mlr", "--prepipe", "cat"] + iflags + case["oflags"] + chain + [fn], {fn: raw}
     elif src == "prepipex":
         args, kw["files"] = ["mlr", "--prepipex", "cat"] + iflags + case["oflags"] + chain + [fn], {fn: raw}
+    elif src in ("files_list", "files_list_nonl"):
+        # names of the input files taken from a list file, one per line; the last line may lack its newline
+        args, kw["files"] = ["mlr", "--files", "list.txt"] + iflags + case["oflags"] + chain, {fn: raw, "list.txt": (fn + ("\n" if src == "files_list" else "")).encode()}
+    elif src == "mfrom":
+        args, kw["files"] = ["mlr", "--mfrom", fn, "--"] + iflags + case["oflags"] + chain, {fn: raw}
     elif src == "file_twice_from":
         args, kw["files"] = ["mlr", "--from", fn] + iflags + case["oflags"] + chain, {fn: raw}
     return args, kw
